@@ -760,6 +760,195 @@ func runC13(c *Ctx) {
 			c.Undecided(fname(nc)+"#scans-all-slots", nc.Pos(), "no indexed scan of fullNode.Children found in nextChild")
 		}
 	}
+
+	// ------------------------------------------------------------ T10
+	c.Rule("C13.T10", "GATE", "no tampered proof verifies: VerifyProof decodes a proof element only after comparing its Keccak hash with the hash it was looked up under (the root, then each child reference) — the proof database is caller-supplied, so an element whose bytes were altered, or another well-formed node stored under the wanted key, would otherwise be followed and yield a different value (or panic in the decoder)")
+	c.Min(1)
+	{
+		vp := w.Fn("trie", "", "VerifyProof")
+		c.sawFunc(fname(vp))
+		decode := w.FuncObj("trie", "", "decodeNode")
+		nDec := 0
+		for _, fn := range withSmallHelpers(vp) {
+			for _, ci := range callsTo(fn, decode) {
+				nDec++
+				c.sites++
+				args := callArgs(ci)
+				buf := args[1]
+				hashed := false
+				for _, a := range atomsOf(factsAtInstr(ci.(ssa.Instruction))) {
+					if a.Kind != "eq" || !a.Truth || a.Y == nil {
+						continue
+					}
+					for _, side := range []ssa.Value{a.X, a.Y} {
+						if derivesFrom(side, func(v ssa.Value) bool {
+							cc, ok := v.(*ssa.Call)
+							if !ok || calleeObj(cc) == nil || !strings.HasPrefix(calleeObj(cc).Name(), "Keccak256") {
+								return false
+							}
+							for _, ka := range cc.Call.Args {
+								if derivesFrom(ka, func(x ssa.Value) bool { return x == stripConv(buf) || samePath(x, buf) }) {
+									return true
+								}
+							}
+							return false
+						}) {
+							hashed = true
+						}
+					}
+				}
+				c.Check(fmt.Sprintf("%s#element-hash-checked-before-decoding-%d", fname(vp), nDec), ci.Pos(), hashed, ifelse(hashed, "Keccak256(element) == wanted hash dominates decodeNode", "a proof element is decoded and followed without its hash having been compared with the reference it was fetched for: a proof whose node bytes were altered verifies to a different value"))
+			}
+		}
+		if nDec == 0 {
+			c.Undecided(fname(vp)+"#element-hash-checked-before-decoding", vp.Pos(), "VerifyProof no longer calls decodeNode")
+		}
+	}
+
+	// ------------------------------------------------------------ T11
+	c.Rule("C13.T11", "GATE", "the node cache keeps its bookkeeping root under the zero hash; that entry has no encoding. Every exported method of trie.Database that looks a caller-supplied hash up in the node table and encodes or returns the entry (Node — it answers peers' node-data requests) first excludes the zero hash; otherwise one request for the zero hash panics in the encoder and the node dies")
+	c.Min(1)
+	{
+		nodesF := w.Field("trie", "Database", "nodes")
+		nLk := 0
+		for _, fn := range trieFns {
+			if fn.Object() == nil || !fn.Object().Exported() || fn.Signature.Recv() == nil || ownerName(fn.Signature.Recv().Type()) != "Database" {
+				continue
+			}
+			// only methods that hand the entry's content out (a []byte result)
+			givesBytes := false
+			for i := 0; i < fn.Signature.Results().Len(); i++ {
+				if sl, ok := fn.Signature.Results().At(i).Type().Underlying().(*types.Slice); ok {
+					if b, isB := sl.Elem().Underlying().(*types.Basic); isB && b.Kind() == types.Uint8 {
+						givesBytes = true
+					}
+				}
+			}
+			if !givesBytes {
+				continue
+			}
+			for _, b := range fn.Blocks {
+				for _, in := range b.Instrs {
+					lk, ok := in.(*ssa.Lookup)
+					if !ok {
+						continue
+					}
+					if f, _ := loadedField(stripConv(lk.X)); f != nodesF {
+						continue
+					}
+					// the parameter itself, or the local cell it was spilled into (hash[:] takes its address)
+					paramOf := func(v ssa.Value) *ssa.Parameter {
+						v = stripConvNoBind(v)
+						if q, ok := v.(*ssa.Parameter); ok {
+							return q
+						}
+						if u, ok := v.(*ssa.UnOp); ok && u.Op == token.MUL {
+							if al, isAl := u.X.(*ssa.Alloc); isAl {
+								var q *ssa.Parameter
+								n := 0
+								for _, r := range *al.Referrers() {
+									if st, isSt := r.(*ssa.Store); isSt && st.Addr == ssa.Value(al) {
+										n++
+										q, _ = st.Val.(*ssa.Parameter)
+									}
+								}
+								if n == 1 {
+									return q
+								}
+							}
+						}
+						return nil
+					}
+					p := paramOf(lk.Index)
+					if p == nil || p.Parent() != fn {
+						continue
+					}
+					nLk++
+					c.sites++
+					c.sawFunc(fname(fn))
+					excluded := false
+					for _, a := range atomsOf(factsAt(b)) {
+						if a.Kind == "isnil" && !a.Truth && paramOf(a.X) == p {
+							excluded = true
+						}
+						if a.Kind == "eq" && !a.Truth && (paramOf(a.X) == p || (a.Y != nil && paramOf(a.Y) == p)) {
+							excluded = true
+						}
+					}
+					c.Check(fmt.Sprintf("%s#zero-hash-excluded-%d", fname(fn), nLk), lk.Pos(), excluded, ifelse(excluded, "the lookup is reached only for a non-zero hash", "the node table is read under a caller-supplied hash without excluding the zero hash, whose entry is the bookkeeping root: encoding it panics — any peer can crash the node with one node-data request"))
+				}
+			}
+		}
+		if nLk == 0 {
+			c.Undecided("trie.Database#content-lookups", token.NoPos, "no exported Database method returning bytes looks its hash parameter up in the node table (Node is expected)")
+		}
+	}
+
+	// ------------------------------------------------------------ T12
+	c.Rule("C13.T12", "WIDTH", "reference counts cannot wrap: the counter of live parents of a cached node (cachedNode.parents) is at least 32 bits wide. One node can have more than 65535 parents (identical leaves under 65536 prefixes); a 16-bit counter wraps to zero and the next Dereference of an unrelated root frees a node that a live root still uses")
+	c.Min(1)
+	{
+		pf := w.Field("trie", "cachedNode", "parents")
+		c.sites++
+		wide := false
+		if b, ok := pf.Type().Underlying().(*types.Basic); ok {
+			switch b.Kind() {
+			case types.Uint32, types.Uint64, types.Int32, types.Int64, types.Int, types.Uint:
+				wide = true
+			}
+		}
+		c.Check("trie.cachedNode#parents-counter-width", pf.Pos(), wide, ifelse(wide, "type "+pf.Type().String(), "cachedNode.parents has type "+pf.Type().String()+": with 65536 parents it wraps to zero"))
+	}
+	// ------------------------------------------------------------ T13
+	c.Rule("C13.T13", "DECISION", "a trie node is never shadowed by a raw blob of the same hash: (*Database).insert serves both InsertBlob (contract code, delegation lists: childless raw entries) and the hasher's node insertions, keyed by hash only; its 'already cached, skip' shortcut may be taken only on paths that established that the cached entry is a real node or that the value being inserted is itself raw — otherwise a blob that happens to equal the encoding of a trie node (contract code chosen as the RLP of a storage-trie node) is cached first, the real node is discarded, Database.Commit never descends into its children and the committed root cannot be reopened")
+	c.Min(1)
+	{
+		ins := w.Fn("trie", "Database", "insert")
+		c.sawFunc(fname(ins))
+		nodesF := w.Field("trie", "Database", "nodes")
+		var updBlocks = map[*ssa.BasicBlock]bool{}
+		for _, fw := range fieldWrites(ins) {
+			if fw.Field == nodesF && fw.Kind == "mapupdate" {
+				updBlocks[fw.Instr.Block()] = true
+			}
+		}
+		nSkip, bad := 0, 0
+		okEnum := true
+		for _, b := range ins.Blocks {
+			if _, isRet := b.Instrs[len(b.Instrs)-1].(*ssa.Return); !isRet {
+				continue
+			}
+			// a return that the table update does not dominate: the insertion was skipped
+			after := false
+			for ub := range updBlocks {
+				if ub == b || ub.Dominates(b) {
+					after = true
+				}
+			}
+			if after {
+				continue
+			}
+			nSkip++
+			kindTested := false
+			for _, f := range factsAt(b) {
+				if derivesFrom(f.Cond, func(v ssa.Value) bool {
+					ta, ok := v.(*ssa.TypeAssert)
+					return ok && ownerName(ta.AssertedType) == "rawNode"
+				}) {
+					kindTested = true
+				}
+			}
+			if !kindTested {
+				bad++
+			}
+		}
+		c.sites += nSkip
+		if !okEnum || len(updBlocks) == 0 {
+			c.Undecided(fname(ins)+"#cached-shortcut-distinguishes-blobs-from-nodes", ins.Pos(), "the paths of insert could not be enumerated or the table update was not found")
+		} else {
+			c.Check(fname(ins)+"#cached-shortcut-distinguishes-blobs-from-nodes", ins.Pos(), bad == 0, ifelse(bad == 0, fmt.Sprintf("all %d skipping paths tested the kind of the cached or the new entry", nSkip), fmt.Sprintf("%d of %d paths skip the insertion because the hash is already cached without asking whether the cached entry is a raw blob: a contract whose code is the RLP of a storage-trie root node (CodeHash == Root) is cached childless first, and after commit + reopen all slots below that node are missing", bad, nSkip)))
+		}
+	}
 }
 
 // sameNode: two base values denote the same node (same SSA value, or loads of the same local).
